@@ -28,6 +28,9 @@ def run(ctx):
     ctx.rule('C14.HANDOVER', lambda: rule_handover(ctx), 4)
     ctx.rule('C14.ROWKEYS', lambda: rule_rowkeys(ctx), 3)
     ctx.rule('C14.GROUPING', lambda: rule_grouping(ctx), 3)
+    from . import c04 as _c04, c03 as _c03
+    ctx.rule('C14.SCRUB', lambda: _c04.rule_scrub(ctx, 'C14'), 6)
+    ctx.rule('C14.TRUNC', lambda: _c03.rule_trunc(ctx), 3)
 
 
 def rule_batch(ctx):
